@@ -94,8 +94,6 @@ func init() {
 	})
 }
 
-
-
 func ext۰math۰Float64frombits(fr *frame, args []value) value {
 	return math.Float64frombits(args[0].(uint64))
 }
@@ -157,13 +155,6 @@ func ext۰runtime۰Breakpoint(fr *frame, args []value) value {
 	return nil
 }
 
-
-
-
-
-
-
-
 func ext۰runtime۰GOMAXPROCS(fr *frame, args []value) value {
 	// Ignore args[0]; don't let the interpreted program
 	// set the interpreter's GOMAXPROCS!
@@ -193,7 +184,6 @@ func ext۰runtime۰Gosched(fr *frame, args []value) value {
 func ext۰runtime۰NumCPU(fr *frame, args []value) value {
 	return runtime.NumCPU()
 }
-
 
 func ext۰os۰Getenv(fr *frame, args []value) value {
 	name := concString(args[0])
